@@ -163,6 +163,22 @@ def run(ctx):
         open(os.path.join(d, "t_b.cc"), "w").write('#include "au.hh"\nint fa();\nint main() { return fa() == int(sizeof(au::Zero)) ? 0 : 1; }\n')
         for cfg in cfgs_sf:
             jobs.append(("self", r["id"], cfg, None))
+        # every name the selected headers define must be usable, with the same meaning, through the single file
+        names = []
+        for h in ["au/units/%s.hh" % u for u in s["units"]] + ["au/constants/%s.hh" % c.lower() for c in s["constants"]]:
+            text = open(os.path.join(repo, "au", "code", h)).read()
+            names += [(m, "q") for m in re.findall(r"^constexpr auto (\w+) = QuantityMaker<", text, re.M)]
+            names += [(m, "c") for m in re.findall(r"^constexpr auto (\w+) =\s*make_constant\(", text, re.M)]
+        L = ["#ifdef AUV_SINGLE_FILE", '#include "au.hh"', "#else", '#include "au/au.hh"'] + ['#include "au/units/%s.hh"' % u for u in s["units"]] + \
+            ['#include "au/constants/%s.hh"' % c.lower() for c in s["constants"]] + (['#include "au/io.hh"'] if s["io"] else []) + ["#endif", "#include <cstdio>", "int main() {"]
+        for nm, kind in sorted(set(names)):
+            if kind == "q":
+                L.append('    std::printf("%s %%s %%d\\n", au::unit_label(decltype(au::%s(1))::unit), (int)sizeof(au::%s(1.0)));' % (nm, nm, nm))
+            else:
+                L.append('    std::printf("%s %%s\\n", au::unit_label(au::AssociatedUnitT<decltype(au::%s)>{}));' % (nm, nm))
+        open(os.path.join(d, "t_uses.cc"), "w").write("\n".join(L + ["    return 0;", "}"]) + "\n")
+        for mode in ("single", "tree"):
+            jobs.append(("uses", r["id"], cfgs_sf[r["id"] % len(cfgs_sf)], mode))
         if s["api"]:
             reps = [REPS[(r["id"] + j) % len(REPS)] for j in ((0, 5) if quick else (0, 3, 5, 8))]
             for cfg in cfgs_sf:
@@ -191,7 +207,11 @@ def run(ctx):
                 rc3, o3 = core.sh([exe], timeout=60)
             res = {"alone": int(rc1 == 0), "twice": int(rc2 == 0), "linked": int(rc3 == 0), "diag": errs_of(o1 + o2 + o3)}
             return job, res
-        if kind == "api":
+        if kind == "uses":
+            d = sby[sid]["dir"]
+            exe = os.path.join(d, "uses_%s" % arg)
+            rc, o = compile_(comp, std, ["-O0"] + (["-I" + d, "-DAUV_SINGLE_FILE"] if arg == "single" else ["-I" + os.path.join(repo, "au", "code")]) + [os.path.join(d, "t_uses.cc"), "-o", exe])
+        elif kind == "api":
             d = sby[sid]["dir"]
             exe = os.path.join(d, "api_%s_%s" % (cfg, arg.replace(" ", "_")))
             defs = ["-DAUV_SINGLE_FILE", "-DREP=" + arg] + (["-DAUV_WITH_IO"] if sels[sid]["io"] else [])
@@ -236,6 +256,21 @@ def run(ctx):
             obs.append({"k": "alike", "id": rid, "obs": [{"cfg": cfg + "/tree", "verdict": t["verdict"], "out": t["out"]}, {"cfg": cfg + "/single-file", "verdict": r["verdict"], "out": r["out"]}]})
             descr[rid] = ("sf", rep, sels[sid]["io"], (sid, cfg, r, t))
             rid += 1
+    uses = {}
+    for j, r in results:
+        if j[0] == "uses":
+            uses.setdefault(j[1], {})[j[3]] = (j[2], r)
+    for sid, d2 in uses.items():
+        cfg, t = d2["tree"]
+        _, r = d2["single"]
+        if t["verdict"] != "accepted":
+            if core.first_error_in_au(t["diag"]):
+                ctx.violation({"kind": "selected names unusable in the tree", "units": sorted(sels[sid]["units"]), "constants": sorted(sels[sid]["constants"])}, "selection #%d: a program naming every selected unit and constant is rejected against the header tree [%s]: %s" % (sid, cfg, t["diag"][:300]), detail=t["diag"])
+                continue
+            raise core.ToolError("uses-TU invalid against the tree: " + t["diag"])
+        obs.append({"k": "alike", "id": rid, "obs": [{"cfg": cfg + "/tree", "verdict": t["verdict"], "out": t["out"]}, {"cfg": cfg + "/single-file", "verdict": r["verdict"], "out": r["out"]}]})
+        descr[rid] = ("sf", "every selected name", sels[sid]["io"], (sid, cfg, r, t))
+        rid += 1
     selfres = {}
     for j, r in results:
         if j[0] == "self":
@@ -433,6 +468,11 @@ def make_probes(rnd, count):
         "auto x = meters(A{1}).in(kilo(meters)); (void)x;",
         "auto x = meters(A{1}).as<B>(milli(meters)); (void)x;",
         "auto x = meters(A{1}).coerce_as<B>(kilo(meters)); (void)x;",
+        "auto x = feet(A{100}).coerce_as<B>(meters); (void)x;",
+        "auto x = feet(A{100}).coerce_in(meters); (void)x;",
+        "auto x = meters(A{100}).coerce_in(feet * mag<3>() / mag<7>()); (void)x;",
+        "Quantity<Meters, A> x = rep_cast<A>(feet(B{100})).coerce_as(meters); (void)x;",
+        "bool x = will_conversion_overflow(feet(A{100}), meters) || will_conversion_truncate(feet(A{100}), meters * mag<5>() / mag<9>()); (void)x;",
         "auto x = rep_cast<B>(meters(A{1})); (void)x;",
         "A x = meters(A{4}) / unblock_int_div(meters(B{2})); (void)x;",
         "QuantityPoint<Celsius, A> x = kelvins_pt(B{300}); (void)x;",
